@@ -155,6 +155,13 @@ func (g *GBitcoindEstimator) estimateFee(targetBlocks uint32) (btcutil.Amount, e
 	// witnessScaleFactor.
 	satPerKw := satPerKB / witnessScaleFactor
 
+	// bitcoind answers without a fee rate (and without an rpc error) when it
+	// has not enough data for an estimate. Hand the zero on, so that the
+	// caller falls back to the configured rate instead of the relay floor.
+	if satPerKw == 0 {
+		return 0, nil
+	}
+
 	// Finally compare the fee to our minimum floor
 	minRelayFee := g.feeFloorSatPerKw
 	if g.minFeeManager != nil {
